@@ -7,6 +7,8 @@ import (
 	"context"
 	"fmt"
 	"math/big"
+	"net"
+	"sort"
 	"sync"
 	"sync/atomic"
 	"time"
@@ -14,6 +16,7 @@ import (
 	"github.com/google/uuid"
 	"github.com/massnetorg/mass-core/poc"
 	"massnet.org/mass/fractal"
+	"massnet.org/mass/fractal/connection"
 	"massnet.org/mass/fractal/protocol"
 	"verif/harness/internal/vh"
 )
@@ -163,5 +166,138 @@ func crowdScenario(rng *vh.Rng, idx int) *CrowdRec {
 	}
 	close(stop)
 	cwg.Wait()
+	return rec
+}
+
+// ---------------------------------------------------------------- relay with a stalled upstream
+
+// StallRec: a relay (RemoteSuperior over a real connection) whose upstream peer is alive but has stopped reading, with
+// 1-3 collectors behind it that keep reporting. Once the report path is backed up, one collector is stopped: the stop
+// must return although the upstream never recovers (no keepalive timeout is configured, so nothing else ends the
+// wait). A stop that has not returned at the watchdog is a verdict only if the dump shows goroutines blocked in
+// cluster code.
+type StallRec struct {
+	Idx        int      `json:"idx"`
+	Collectors int      `json:"collectors_behind_the_relay"`
+	Reports    int64    `json:"reports_taken_before_the_path_backed_up"`
+	Kinds      []string `json:"kinds,omitempty"`
+	Notes      []string `json:"notes,omitempty"`
+	Blocked    []string `json:"blocked_in,omitempty"`
+	NotJudged  string   `json:"not_judged,omitempty"`
+}
+
+type stallSource struct {
+	taskID uuid.UUID
+	kind   int
+	n      *int64
+}
+
+func (s *stallSource) Read(ctx context.Context) (protocol.Message, error) {
+	select {
+	case <-ctx.Done():
+		return nil, ctx.Err()
+	default:
+	}
+	atomic.AddInt64(s.n, 1)
+	return &protocol.ReportQualities{TaskID: s.taskID}, nil
+}
+
+type nopRequestWriter struct{}
+
+func (nopRequestWriter) WriteRequestQualities(context.Context, *protocol.RequestQualities) error {
+	return nil
+}
+func (nopRequestWriter) WriteRequestProof(context.Context, *protocol.RequestProof) error { return nil }
+func (nopRequestWriter) WriteRequestSignature(context.Context, *protocol.RequestSignature) error {
+	return nil
+}
+
+func relayStallScenario(rng *vh.Rng, idx int, watchdog time.Duration) *StallRec {
+	rec := &StallRec{Idx: idx, Collectors: rng.Range(1, 3)}
+	up, down := net.Pipe() // up is never read: a peer that is alive but stalled
+	defer up.Close()
+	conn, connCancel, err := connection.NewConn(connection.WithNetConn(down), connection.KeepaliveInterval(0), connection.KeepaliveTimeout(0))
+	if err != nil {
+		rec.NotJudged = "NewConn: " + err.Error()
+		return rec
+	}
+	bg := context.Background()
+	rs, rsCancel := fractal.NewRemoteSuperior(bg, fractal.NewRemoteRequestReader(bg, conn), fractal.NewRemoteReportWriter(bg, conn), nil)
+	var taken int64
+	cancels := make([]context.CancelFunc, rec.Collectors)
+	for i := range cancels {
+		_, cancels[i] = fractal.NewRemoteCollector(bg, rs, nopRequestWriter{}, &stallSource{taskID: uuid.New(), n: &taken}, nil)
+	}
+	cleanup := func() {
+		done := make(chan struct{})
+		go func() {
+			rsCancel()
+			connCancel()
+			for _, c := range cancels {
+				c()
+			}
+			close(done)
+		}()
+		select {
+		case <-done:
+		case <-time.After(20 * time.Second):
+		}
+	}
+	defer cleanup()
+	// wait until the report path is backed up: the sources are no longer drained
+	last, stable := int64(-1), 0
+	for t0 := time.Now(); stable < 3; {
+		time.Sleep(100 * time.Millisecond)
+		cur := atomic.LoadInt64(&taken)
+		if cur == last && cur > 0 {
+			stable++
+		} else {
+			stable = 0
+		}
+		last = cur
+		if time.Since(t0) > 30*time.Second {
+			rec.NotJudged = "the report path did not back up within 30 s"
+			return rec
+		}
+	}
+	rec.Reports = last
+	victim := rng.Intn(rec.Collectors)
+	stopped := make(chan struct{})
+	go func() { cancels[victim](); close(stopped) }()
+	late := time.Duration(0)
+	deadline := time.Now().Add(watchdog)
+	returned := false
+	for !returned && time.Now().Before(deadline) {
+		t0 := time.Now()
+		select {
+		case <-stopped:
+			returned = true
+		case <-time.After(100 * time.Millisecond):
+			if d := time.Since(t0); d > late {
+				late = d
+			}
+		}
+	}
+	switch {
+	case returned:
+	case late > 850*time.Millisecond:
+		rec.NotJudged = fmt.Sprintf("goroutines were woken up to %s late while waiting for the stop", late)
+	default:
+		blocked := repoGoroutines(fullDump())
+		seen := map[string]bool{}
+		for _, st := range blocked {
+			if !seen[st] {
+				seen[st] = true
+				rec.Blocked = append(rec.Blocked, st)
+			}
+		}
+		sort.Strings(rec.Blocked)
+		if len(rec.Blocked) == 0 {
+			rec.NotJudged = "stop did not return within the watchdog but no cluster goroutine is blocked"
+			return rec
+		}
+		rec.Kinds = append(rec.Kinds, "call-never-returned")
+		rec.Notes = append(rec.Notes, fmt.Sprintf("stopping collector %d of %d behind a relay whose upstream is stalled (%d reports taken) did not return within %s", victim, rec.Collectors, last, watchdog))
+	}
 	return rec
 }
